@@ -838,6 +838,10 @@ func (rn *run) runBuild(i int, name string) {
 			return
 		}
 	}
+	if img, err = asPulled(img); err != nil {
+		c.Violate("harness:as-pulled", name, err.Error(), wit(nil))
+		return
+	}
 	c.Count("images_layout_"+b.Variant, 1)
 	e := newEnv(pkgTypes[b.Typ], uint64(c.Seed)*5000003+uint64(i), false)
 	rev, image := revName(r)
